@@ -332,8 +332,9 @@ def handEval (env : Env ν) (row : Row ν) (e : Expr) : Res ν := ev env row e .
 
 /-! ## (iii) what `expr/parser.go` can build -/
 
-/-- `parseComparisonExpression` has no NOT production: a NOT anywhere makes `NewExpression` fall
-back to `useExprLang`.  (CASE is accepted in primary position since the nested-CASE repair.) -/
+/-- Every constructor of the grammar has a production in `expr/parser.go` since the repairs (NOT
+between AND and the comparison, CASE in operand position); only a chain link outside its CASE is
+not an expression.  Kept as a definition so that a parser regression has a place to show. -/
 def handParses : Expr → Bool
   | .lit _ => true
   | .str _ => true
@@ -344,7 +345,7 @@ def handParses : Expr → Bool
   | .cmp _ l r => handParses l && handParses r
   | .and l r => handParses l && handParses r
   | .or l r => handParses l && handParses r
-  | .not _ => false
+  | .not e => handParses e
   | .caseS ch => handParses ch
   | .caseV sc ch => handParses sc && handParses ch
   | .whenL c r rest => handParses c && handParses r && handParses rest
